@@ -417,6 +417,9 @@ func DropLast[T any](count int, list ...T) []T {
 	if listLen == 0 || count >= listLen {
 		return make([]T, 0)
 	}
+	if count <= 0 {
+		return list
+	}
 
 	return list[:(listLen - count)]
 }
